@@ -71,6 +71,14 @@ Proof.
 Qed.
 Print Assumptions C08_all_commands_data.
 
+(* (2b) the table key counter (number of keys stored in a table: strings and collections of every type, an expired
+   key counted until it is rewritten or compacted) is the same number in both models; the harness compares it with
+   GetTableKeyCount of the implementation at the end of every generated sequence *)
+Theorem C08_table_key_counts_agree : forall (compact : bool) (clock : Z) (ms : mstate) (ss : sstate) (t : bytes),
+  simS compact clock ms ss -> map_table_count t ms = spec_table_count t ss.
+Proof. exact table_counts_agree. Qed.
+Print Assumptions C08_table_key_counts_agree.
+
 (* (3) one step, from any related pair of states (incl. failing commands) *)
 Theorem C08_step : forall (compact : bool) (clock now ts : Z) (c : cmd) (bnd : Z) (ms : mstate) (ss : sstate),
   simS compact clock ms ss -> 0 <= clock < ts ->
